@@ -25,6 +25,8 @@ type CPrec struct {
 	Direct bool `json:"direct"`
 	// AsSucceeds: written in the JSON on the successor stop (`succeeds`) instead of on this stop (`precedes`)
 	AsSucceeds bool `json:"as_succeeds,omitempty"`
+	// Both: the relation is stated twice, as `precedes` on this stop AND as `succeeds` on the successor (valid input)
+	Both bool `json:"both,omitempty"`
 }
 
 type CMix struct {
@@ -124,6 +126,10 @@ type CSolve struct {
 	// Mode (repro stream): "" / "parallel" = the parallel solver as shipped; "parallel-norestart" = the parallel solver
 	// with a solver factory whose restart operator never fires; "single" = the single solver read by a plain consumer
 	Mode string `json:"mode,omitempty"`
+	// Explicit (sol stream): number of start solutions BUILT BY THE HARNESS and handed to Solve (0: none); ExplicitSeed
+	// drives how many units each of them has planned and their order
+	Explicit     int   `json:"explicit,omitempty"`
+	ExplicitSeed int64 `json:"explicit_seed,omitempty"`
 }
 
 // Profile steers which features a generated case may use.
@@ -133,6 +139,8 @@ type Profile struct {
 	Attrs, Mix, Limits, Waits, Targets, MinStops, Disable, NonMetric               bool
 	Tight                                                                           bool
 	ForcePrec                                                                       bool // precedence units always on
+	StatedTwice                                                                     bool // some precedence relations are stated from both sides
+	ForceMix                                                                        bool // mixing items on most stops, units of three stops with items
 	Trap                                                                            bool // removal trap (see Case.Trap)
 	ForceWindows                                                                    bool // windows, wait limits and a non-metric matrix always on
 	ForceUnordered                                                                  bool // at least one multi-stop unit with several allowed orders
@@ -141,7 +149,7 @@ type Profile struct {
 func fullProfile(maxStops, maxVeh int) Profile {
 	return Profile{MaxStops: maxStops, MaxVehicles: maxVeh, Capacity: true, Windows: true, Precedence: true,
 		Groups: true, Alternates: true, Initial: true, TD: true, DurGroups: true, Mult: true, Attrs: true,
-		Mix: true, Limits: true, Waits: true, Targets: true, MinStops: true, Disable: true, NonMetric: true}
+		Mix: true, Limits: true, Waits: true, Targets: true, MinStops: true, Disable: true, NonMetric: true, StatedTwice: true}
 }
 
 func ip(i int) *int       { return &i }
@@ -204,7 +212,7 @@ func genCase(rng *rand.Rand, p Profile) *Case {
 		usePrec = true
 	}
 	useAttrs := on(p.Attrs, 3)
-	useMix := on(p.Mix, 5)
+	useMix := on(p.Mix, 5) || p.ForceMix
 	useTargets := on(p.Targets, 4)
 	useWaitStop := useWin && (on(p.Waits, 3) || (p.ForceWindows && rng.Intn(2) == 0))
 	useWaitVeh := useWin && (on(p.Waits, 3) || p.ForceWindows)
@@ -311,7 +319,12 @@ func genCase(rng *rand.Rand, p Profile) *Case {
 				}
 			}
 			add := func(a, b int, direct bool) {
-				c.Stops[a].Precedes = append(c.Stops[a].Precedes, CPrec{To: b, Direct: direct, AsSucceeds: rng.Intn(3) == 0})
+				pr := CPrec{To: b, Direct: direct, AsSucceeds: rng.Intn(3) == 0}
+				if p.StatedTwice && rng.Intn(3) == 0 {
+					pr.Both = true
+					c.feature("relation-stated-twice")
+				}
+				c.Stops[a].Precedes = append(c.Stops[a].Precedes, pr)
 			}
 			switch {
 			case shape == 0 && k >= 4: // diamond
@@ -366,8 +379,40 @@ func genCase(rng *rand.Rand, p Profile) *Case {
 	if useMix {
 		c.feature("mix")
 		names := []string{"A", "B"}
+		free := func(i int) bool { return i < n && len(c.Stops[i].Precedes) == 0 && !isSuccessor(c, i) && c.Stops[i].Mix == nil }
+		// units of three stops whose precedence leaves one stop unordered: two pickups and one drop-off of their sum
+		// (only ONE pickup is forced in front of it), or one pickup and two drop-offs — the orders in which the unit's
+		// own running quantity dips below what a drop-off takes are exactly those the estimate has to reason about (E29)
+		for i := 0; i+2 < n; i += 3 {
+			if (rng.Intn(3) != 0 && !(p.ForceMix && rng.Intn(3) != 0)) || !free(i) || !free(i+1) || !free(i+2) {
+				continue
+			}
+			nm := names[rng.Intn(2)]
+			a, b := 1+rng.Intn(2), 1+rng.Intn(2)
+			if k := rng.Intn(3); k == 2 {
+				// a stop without an item in front of a pickup / drop-off pair of the same unit (E30)
+				c.Stops[i].Precedes = append(c.Stops[i].Precedes, CPrec{To: i + 1})
+				c.Stops[i+1].Precedes = append(c.Stops[i+1].Precedes, CPrec{To: i + 2})
+				c.Stops[i+1].Mix = map[string]CMix{"main": {Name: nm, Qty: a}}
+				c.Stops[i+2].Mix = map[string]CMix{"main": {Name: nm, Qty: -a}}
+				c.feature("mix-behind-plain-stop")
+			} else if k == 0 {
+				// first pickup → drop-off, first pickup → second pickup: the drop-off may come before the second pickup
+				c.Stops[i].Precedes = append(c.Stops[i].Precedes, CPrec{To: i + 2}, CPrec{To: i + 1, AsSucceeds: true})
+				c.Stops[i].Mix = map[string]CMix{"main": {Name: nm, Qty: a}}
+				c.Stops[i+1].Mix = map[string]CMix{"main": {Name: nm, Qty: b}}
+				c.Stops[i+2].Mix = map[string]CMix{"main": {Name: nm, Qty: -(a + b)}}
+				c.feature("mix-two-pickups")
+			} else {
+				c.Stops[i].Precedes = append(c.Stops[i].Precedes, CPrec{To: i + 1}, CPrec{To: i + 2})
+				c.Stops[i].Mix = map[string]CMix{"main": {Name: nm, Qty: a + b}}
+				c.Stops[i+1].Mix = map[string]CMix{"main": {Name: nm, Qty: -a}}
+				c.Stops[i+2].Mix = map[string]CMix{"main": {Name: nm, Qty: -b}}
+				c.feature("mix-two-dropoffs")
+			}
+		}
 		for i := 0; i+1 < n; i += 2 {
-			if rng.Intn(2) == 0 {
+			if (rng.Intn(2) == 0 && !p.ForceMix) || c.Stops[i].Mix != nil || c.Stops[i+1].Mix != nil {
 				continue
 			}
 			if len(c.Stops[i].Precedes) == 0 && !isSuccessor(c, i) && len(c.Stops[i+1].Precedes) == 0 && !isSuccessor(c, i+1) {
@@ -703,6 +748,21 @@ func genCase(rng *rand.Rand, p Profile) *Case {
 		c.Opt.Disable = []string{all[rng.Intn(len(all))]}
 		c.feature("disable:" + c.Opt.Disable[0])
 	}
+	// distance-matrix entries of absent start / end locations are zero: unlike the duration matrix (TemporalValues
+	// skips legs from / to an invalid location) the code READS them (measureByIndexExpression), so what a valid input
+	// puts there decides the travelled distance; the haversine default gives 0 for such legs (DESIGN, observation O1)
+	for v, ve := range c.Vehicles {
+		base := len(c.Stops) + len(c.Alts) + 2*v
+		for _, idx := range []int{base, base + 1} {
+			if (idx == base && ve.StartLoc) || (idx == base+1 && ve.EndLoc) || idx >= len(c.Dist) {
+				continue
+			}
+			for j := range c.Dist {
+				c.Dist[idx][j] = 0
+				c.Dist[j][idx] = 0
+			}
+		}
+	}
 	c.Features = uniq(c.Features)
 	return c
 }
@@ -886,7 +946,7 @@ func (c *Case) stopJSON(s CStop, idx int, alt bool) map[string]any {
 	var ss []any
 	for pi, ps := range c.Stops {
 		for _, p := range ps.Precedes {
-			if p.AsSucceeds && p.To == idx {
+			if (p.AsSucceeds || p.Both) && p.To == idx {
 				if p.Direct {
 					ss = append(ss, map[string]any{"id": c.Stops[pi].ID, "direct": true})
 				} else {
@@ -906,7 +966,7 @@ func (c *Case) stopJSON(s CStop, idx int, alt bool) map[string]any {
 	}
 	own := s.Precedes[:0:0]
 	for _, p := range s.Precedes {
-		if !p.AsSucceeds {
+		if !p.AsSucceeds || p.Both {
 			own = append(own, p)
 		}
 	}
